@@ -585,4 +585,20 @@ example : ((List.replicate 100000 (0 : Nat)).length = (List.replicate 100000 (1 
 
 end Loops
 
+/-- **`Spline.predict` = `Spline.jacobian` · `force_`, about the regenerated source, for arrays of every length** (partial reals): the value the
+    regenerated `predict` returns at the k-th query point is row k of the regenerated `jacobian` (same query, the fitted force positions)
+    times the forces — no row is skipped, repeated or taken from another block. -/
+theorem src_spline_predict_eq_jacobian_mul (pts : List (PReal × PReal)) (fe fn forces : List PReal) (frest crest : List (List PReal)) (mindist : PReal)
+    (h1 : fe.length = forces.length) (h2 : fn.length = forces.length) :
+    Gen.splinePredict (fe :: fn :: frest) mindist forces (pts.map (·.1) :: pts.map (·.2) :: crest)
+      = (Gen.splineJacobian mindist (pts.map (·.1) :: pts.map (·.2) :: crest) (fe :: fn :: frest)).map
+          fun row => psum (List.zipWith (· * ·) row forces) := by
+  have hz : ∀ l : List (PReal × PReal), (l.map (·.1)).zip (l.map (·.2)) = l := by
+    intro l
+    induction l with
+    | nil => rfl
+    | cons p ps ih => simp [ih]
+  rw [gen_spline_predict_all_eq_model pts fe fn forces frest crest mindist h1 h2, gen_spline_jacobian_eq_model, hz,
+    spline_predict_eq_jac_mul]
+
 end Verde.C03
